@@ -376,6 +376,7 @@ package parser
 //@               ==> as(result0.TopLevelStatements[a], ast.MovementStatement).Name.Value != as(result0.TopLevelStatements[b], ast.MovementStatement).Name.Value)
 //@   ensures [C18:located] result1 != nil ==> ErrLoc(result1)
 //@   loop 1
+//@     decreases [C18:term] Left(p)
 //@     invariant [C18:pstate-inv] PState(p) && p.l == old(p.l) && p.l.input == old(p.l.input) && fresh(p.inlineTextsSet) && fresh(p.inlineMovementsSet) && p.constants == old(p.constants) && p.inlineTextCounts == old(p.inlineTextCounts) && p.inlineMovementCounts == old(p.inlineMovementCounts)
 //@     invariant [C06:tables-inv] TextTableOK(p) && MoveTableOK(p)
 //@     invariant [C18:program] program != nil && fresh(program) && TextStmtsOK(p) && (forall k int :: {program.TopLevelStatements[k]} (0 <= k && k < len(program.TopLevelStatements)) ==> MoveNamed(program.TopLevelStatements[k]))
